@@ -1,8 +1,10 @@
 (* C14 - tables render as a rectangle within the terminal and keep every cell's text.
-   The theorems are about Model/Table.v (cells without style tags) and hold for every share-rounding function;
+   The theorems are about Model/Table.v (first the tag-free table, then - at the end - tables with style-tagged cells)
+   and hold for every share-rounding function;
    textwrap is the concrete model of Model/Wrap.v (WrapLemmas: lines fit, total for widths >= 1, text kept). *)
 From Coq Require Import Lia.
-From Clikit Require Import Base.Prelude Base.Res Model.Markup Model.Wrap Model.Table Proofs.WrapLemmas Proofs.TableLemmas.
+From Clikit Require Import Base.Prelude Base.Res Model.Markup Model.Wrap Model.Table Proofs.MarkupLemmas Proofs.WrapLemmas Proofs.TableLemmas
+  Proofs.TableTaggedLemmas.
 Local Open Scope Z_scope.
 
 (* whenever every column can have one character, fitting succeeds for every list of cells, every column length,
@@ -94,3 +96,122 @@ Example a_table_that_wraps :
   exists st text, render_table share_exact ascii_style 2 [] [[[97;97;97;32;98;98;98;32;99;99;99;32;100;100]%N; [120%N]]] 14 0 = Ok (st, text)
                   /\ f_cols st = [6; 1] /\ f_wraps st = true /\ 2 <= available_width ascii_style 14 0 2.
 Proof. eexists; eexists. split; [vm_compute; reflexivity|]. repeat split; vm_compute; congruence. Qed.
+
+(* ---------------------------------------------------------------------------------------------------------
+   Tables with style-tagged cells (Proofs/TableTaggedLemmas.v).  render_table_f is the table as the code runs it:
+   lengths are visible lengths (remove_format), rows hold the raw cell text, every line is read as markup once by
+   the output.  The theorems are about tables whose cells are GOOD MARKUP for the formatter f (good_cell f):
+   no ESC and no backslash in the cell, the formatter reads the cell (remove_format succeeds), is left as it was
+   (the style stack is restored), the visible text holds no '<', and a cell holding '<' holds no line break;
+   the strings of the table style hold no '<', ESC or backslash (inert_style; true of the four presets); the
+   formatter is not the NullFormatter; and rendering returned Ok - which, the cells being good, fails only when a
+   cell holding '<' would have to be wrapped (Err (Other 20)) or outside the property's guard. *)
+
+(* the tag-free model is the special case: on cells and style strings without '<' the formatter plays no part *)
+Theorem render_f_tag_free : forall on f share s n header rows W ind,
+  nolt_style s -> Forall no_lt (header ++ concat rows) ->
+  render_table_f share on f s n header rows W ind = render_table share s n header rows W ind.
+Proof. exact TableTaggedLemmas.render_f_tag_free. Qed.
+Print Assumptions render_f_tag_free.
+
+(* what is written is, line by line, the tag-free table of the cells' visible texts: there are lines Xs with
+   text = concat Xs, and for the i-th line PL of that tag-free table (before its right-strip), Xs[i] without its
+   SGR sequences is v ++ newline with PL = v ++ white space; an undecorated output writes v ++ newline itself.
+   The fitted rows, column widths and flags are those of the tag-free table (vst: cell by cell the visible text) *)
+Theorem table_visible_commutes : forall share on f s n header rows W ind st text,
+  f_kind f <> FNull -> inert_style s -> rows <> [] -> Forall (good_cell f) (table_cells header rows) ->
+  render_table_f share on f s n header rows W ind = Ok (st, text) ->
+  let cs := map (vis f) (table_cells header rows) in
+  exists al Xs,
+    render_pure (fun _ => false) share s n header cs (map zlen cs) W ind
+      = Ok (vst f st, strip_lines (table_lines s header ind (vst f st) al)) /\
+    length al = length (f_cols st) /\
+    text = concat Xs /\ Forall2 (line_item on f) Xs (table_lines s header ind (vst f st) al).
+Proof.
+  intros share on f s n header rows W ind st text Hk. exact (TableTaggedLemmas.table_visible_commutes share on f Hk s n header rows W ind st text).
+Qed.
+Print Assumptions table_visible_commutes.
+
+(* a rectangle within the terminal: the visible text (SGR sequences removed) is a sequence of lines v ++ newline,
+   every v followed by some white space is exactly  indentation + borders + sum (column + padding)  wide, that
+   width is at most the terminal's; an output that does not decorate writes exactly that text (no ESC) *)
+Theorem table_rect_tagged : forall share on f s n header rows W ind st text,
+  f_kind f <> FNull -> wf_styleb s = true -> inert_style s -> (1 <= n)%nat -> 0 <= ind -> rows <> [] ->
+  Z.of_nat n <= available_width s W ind (Z.of_nat n) ->
+  Forall (good_cell f) (table_cells header rows) ->
+  render_table_f share on f s n header rows W ind = Ok (st, text) ->
+  (exists vs, strip_sgr text = flat_map (fun v => v ++ [10%N]) vs /\
+              (decorated on f = false -> text = flat_map (fun v => v ++ [10%N]) vs) /\
+              Forall (fun v => exists sp, Forall (fun c => is_space c = true) sp /\ zlen (v ++ sp) = full_width s (f_cols st) ind) vs) /\
+  full_width s (f_cols st) ind <= W /\ length (f_cols st) = n.
+Proof.
+  intros share on f s n header rows W ind st text Hk Hwf. exact (TableTaggedLemmas.table_rect_tagged share on f Hk s n header rows W ind st text (wf_styleb_sound s Hwf)).
+Qed.
+Print Assumptions table_rect_tagged.
+
+(* every cell keeps its visible text: the rows the wrapper holds are, cell by cell and white space aside, the
+   visible texts of the table's cells, and the visible lines are (up to trailing white space) the lines of the
+   tag-free table drawn from those rows - table_lines / row_line / pad_cell put the visible text of the cell of
+   column j, padded to the column's width, between the j-th pair of borders *)
+Theorem table_keeps_text_tagged : forall share on f s n header rows W ind st text,
+  f_kind f <> FNull -> inert_style s -> (1 <= n)%nat -> rows <> [] ->
+  Forall (fun r => length r = n) rows -> (header = [] \/ length header = n) ->
+  Forall (good_cell f) (table_cells header rows) ->
+  render_table_f share on f s n header rows W ind = Ok (st, text) ->
+  Forall2 (Forall2 (fun wrapped cell => filter (fun c => negb (is_space c)) (vis f wrapped) = filter (fun c => negb (is_space c)) (vis f (t_rstrip cell))))
+          (f_rows st) (match header with [] => rows | _ => header :: rows end) /\
+  exists al vs, strip_sgr text = flat_map (fun v => v ++ [10%N]) vs /\
+                Forall2 (fun v PL => exists sp, PL = v ++ sp /\ Forall (fun c => is_space c = true) sp) vs
+                        (table_lines s header ind (vst f st) al).
+Proof.
+  intros share on f s n header rows W ind st text Hk. exact (TableTaggedLemmas.table_keeps_text_tagged share on f Hk s n header rows W ind st text).
+Qed.
+Print Assumptions table_keeps_text_tagged.
+
+(* where a cell's (visible) line sits in a line of the tag-free table: the line of a row is, column after column,
+   cell prefix ++ padding ++ the cell line ++ padding ++ cell suffix ++ separator (row_line, by definition) *)
+Theorem cell_line_in_its_column : forall pre suf pad vc vr i c cells w cols a al,
+  row_line pre suf pad vc vr i (c :: cells) (w :: cols) (a :: al)
+  = (match pad_cell pad a w (nth i c []) with Some x => pre ++ x ++ suf ++ (match cells with [] => vr | _ => vc end) | None => [] end)
+    ++ row_line pre suf pad vc vr i cells cols al
+  /\ forall x, pad_cell pad a w (nth i c []) = Some x -> exists k1 k2, x = rep pad k1 ++ nth i c [] ++ rep pad k2.
+Proof. intros. split; [reflexivity|]. intros x H. exact (pad_cell_holds _ _ _ _ _ H). Qed.
+Print Assumptions cell_line_in_its_column.
+
+(* ---- a concrete tagged table:  <b>bold</b> | <fg=red>x</>  over  plain | y,  ascii style, width 30 ---- *)
+Definition b_sty : cstyle := {| c_tag := Some [98%N]; c_fg := None; c_bg := None; c_bold := true; c_italic := false; c_dark := false;
+  c_underlined := false; c_blinking := false; c_inverse := false; c_hidden := false |}.
+Definition fmt_of (k : fkind) : formatter :=
+  match new_formatter k [b_sty] with Ok f => f | Err _ => {| f_kind := k; f_styles := []; f_stack := [] |} end.
+Definition c_bold : str := ([60;98;62;98;111;108;100;60;47;98;62]%N) (* <b>bold</b> *).
+Definition c_red : str := ([60;102;103;61;114;101;100;62;120;60;47;62]%N) (* <fg=red>x</> *).
+Definition c_plain : str := ([112;108;97;105;110]%N) (* plain *).
+Definition tagged_tbl : list (list str) := [[c_bold; c_red]; [c_plain; [121%N]]].
+Ltac all_chars := repeat (apply Forall_cons; [repeat split; discriminate|]); apply Forall_nil.
+Example tagged_table_hypotheses : forall k, k = FPlain \/ k = FAnsi true ->
+  f_kind (fmt_of k) <> FNull /\ wf_styleb ascii_style = true /\ inert_style ascii_style /\
+  2 <= available_width ascii_style 30 0 2 /\ Forall (good_cell (fmt_of k)) (table_cells [] tagged_tbl).
+Proof.
+  intros k Hk. split; [destruct Hk as [-> | ->]; discriminate|]. split; [reflexivity|]. split.
+  { unfold inert_style, inert. cbn. repeat split; try all_chars. repeat (apply Forall_cons; [all_chars|]). apply Forall_nil. }
+  split; [vm_compute; congruence|].
+  assert (G : forall c v, Forall good c -> ~ In 10%N c -> remove_format (fmt_of k) c = Ok (fmt_of k, v) -> no_lt v -> good_cell (fmt_of k) c)
+    by (intros c v H1 H2 H3 H4; split; [exact H1|split; [intros _; exact H2|exists v; split; assumption]]).
+  assert (NL : forall c : str, forallb (fun x => negb (N.eqb x 10)) c = true -> ~ In 10%N c).
+  { intros c H Hin. rewrite forallb_forall in H. specialize (H _ Hin). discriminate. }
+  change (table_cells [] tagged_tbl) with (map t_rstrip [c_bold; c_red; c_plain; [121%N]]). cbn [map].
+  repeat apply Forall_cons; try apply Forall_nil.
+  - apply (G _ ([98;111;108;100]%N)); [vm_compute; all_chars|apply NL; reflexivity|destruct Hk as [-> | ->]; vm_compute; reflexivity|all_chars].
+  - apply (G _ ([120]%N)); [vm_compute; all_chars|apply NL; reflexivity|destruct Hk as [-> | ->]; vm_compute; reflexivity|all_chars].
+  - apply (G _ c_plain); [vm_compute; all_chars|apply NL; reflexivity|destruct Hk as [-> | ->]; vm_compute; reflexivity|all_chars].
+  - apply (G _ ([121]%N)); [vm_compute; all_chars|apply NL; reflexivity|destruct Hk as [-> | ->]; vm_compute; reflexivity|all_chars].
+Qed.
+(* what is rendered: the column widths are the visible widths 5 ("plain") and 1; plain, then on a decorated output *)
+Example tagged_table_rendered :
+  (exists st, render_table_f share_exact false (fmt_of FPlain) ascii_style 2 [] tagged_tbl 30 0
+     = Ok (st, ([43;45;45;45;45;45;45;45;43;45;45;45;43;10;124;32;98;111;108;100;32;32;124;32;120;32;124;10;124;32;112;108;97;105;110;32;124;32;121;32;124;10;43;45;45;45;45;45;45;45;43;45;45;45;43;10]%N) (* +-------+---+ / | bold  | x | / | plain | y | / +-------+---+ *))
+     /\ f_cols st = [5; 1] /\ f_wraps st = false) /\
+  (exists st, render_table_f share_exact true (fmt_of (FAnsi true)) ascii_style 2 [] tagged_tbl 30 0
+     = Ok (st, ([43;45;45;45;45;45;45;45;43;45;45;45;43;10;124;32;27;91;49;109;98;111;108;100;27;91;48;109;32;32;124;32;27;91;51;49;109;120;27;91;48;109;32;124;10;124;32;112;108;97;105;110;32;124;32;121;32;124;10;43;45;45;45;45;45;45;45;43;45;45;45;43;10]%N) (* | ESC[1m bold ESC[0m  | ESC[31m x ESC[0m | *))
+     /\ strip_sgr ([43;45;45;45;45;45;45;45;43;45;45;45;43;10;124;32;27;91;49;109;98;111;108;100;27;91;48;109;32;32;124;32;27;91;51;49;109;120;27;91;48;109;32;124;10;124;32;112;108;97;105;110;32;124;32;121;32;124;10;43;45;45;45;45;45;45;45;43;45;45;45;43;10]%N) = ([43;45;45;45;45;45;45;45;43;45;45;45;43;10;124;32;98;111;108;100;32;32;124;32;120;32;124;10;124;32;112;108;97;105;110;32;124;32;121;32;124;10;43;45;45;45;45;45;45;45;43;45;45;45;43;10]%N)).
+Proof. split; eexists; (split; [vm_compute; reflexivity|]); [split; reflexivity|vm_compute; reflexivity]. Qed.
